@@ -1,23 +1,7 @@
 // Harnesses for src/protocol/nv.rs (C16).
 use super::*;
 
-/// Reference varint decoder at offset `o`: (value, consumed) or None on truncation.
-pub(crate) fn ref_varint(b: &[u8], o: usize) -> Option<(usize, usize)> {
-    if o >= b.len() { return None; }
-    if b[o] & 0x80 == 0 { return Some((b[o] as usize, 1)); }
-    if o + 4 > b.len() { return None; }
-    let v = (((b[o] & 0x7f) as usize) << 24) | ((b[o + 1] as usize) << 16) | ((b[o + 2] as usize) << 8) | b[o + 3] as usize;
-    Some((v, 4))
-}
-
-/// Reference (non-iterator) decoder of the pair starting at offset `o`: (head_len, name_len, val_len).
-pub(crate) fn ref_next(b: &[u8], o: usize) -> Option<(usize, usize, usize)> {
-    let (nl, c1) = ref_varint(b, o)?;
-    let (vl, c2) = ref_varint(b, o + c1)?;
-    let h = c1 + c2;
-    // nl, vl < 2^31: no overflow on a 64-bit usize
-    if o + h + nl + vl <= b.len() { Some((h, nl, vl)) } else { None }
-}
+use crate::verif_kani::{ref_varint, ref_next};
 
 fn off(base: &[u8], p: &[u8]) -> usize { (p.as_ptr() as usize).wrapping_sub(base.as_ptr() as usize) }
 
